@@ -306,3 +306,18 @@ PROPS["C14"] = dict(
     assumptions=COMMON_ASSUME[:1] + ["reference LAPACK 3.11 / OpenBLAS as installed", "gesvd: the fourth argument is V transposed (its template parameter is VTArray2D; U S VV reconstructs the input, U S VV^T does not)",
                  "syev.hpp does not compile on the pinned tree (known finding), getrf is not claimed by the property"],
 )
+
+PROPS["C15"] = dict(
+    targets=[dict(name="C15", src="vp/props/C15.cpp", libs=["-lfftw3"], maxlen=12)],
+    quick=dict(cases=2500, floor=20000),
+    thorough=dict(cases=50000, floor=400000, fuzz=dict(time=240)),
+    level="exploration",
+    level_text=("Differential testing against a direct (separable, O(N n_d)) evaluation of the unnormalised DFT: D in 1..4, extents 1..5, all 2^D masks of transformed dimensions, both signs, input and "
+                "output independently realised as contiguous view, transposed storage, rotated storage, padded sub-block or strided view; out-of-place through dft / dft_forward / dft_backward and "
+                "the in-place overload. The result matches within 1e-10 N max|x|; a distinct input's whole parent storage is bit-identical afterwards; every parent cell outside the output view is "
+                "unchanged; transforming back multiplies every element by the number of transformed points."),
+    technique="differential testing against a direct DFT on generated layouts and dimension masks, whole-parent guard comparison (rapidcheck + libFuzzer)",
+    rule=("case = D x extents x mask x sign x input layout x output layout (or in-place) x front end x data seed; non-trivial = >= 2 elements, >= 2 transformed points and (a proper subset of the "
+          "dimensions is transformed or a layout is not contiguous); distinct = hash of decoded case text"),
+    assumptions=COMMON_ASSUME[:1] + ["FFTW 3.3.10 double precision; extents 1..5 (size 0 is outside FFTW's domain)", "in-place use is through the dedicated overload on one view; aliasing views of different layouts are not generated"],
+)
